@@ -23,11 +23,13 @@ Proof. exact consider_default_returned. Qed.
 Print Assumptions C01_once_in_order.
 
 (** semantic half on CORE: the vote of a line is the conjunction (OR mode: disjunction) of the
-    components' votes, each evaluated exactly once, left to right, on the state its predecessors left *)
+    components' votes, each evaluated exactly once, left to right, on the state its predecessors left
+    ([ensure cs s]: the state with the counter() variables of the csvpath created, which validation does
+    when the first line reaches the match part) *)
 Theorem C01_line_vote : forall q blanks AND cs e s l, stopped mx s = false -> (oeqb e (pln mx s) && is_nil l) = false ->
   core_m q blanks AND cs e s l =
-    (fst (seq_eval cst comp (fun c s => eval q blanks AND c s l) AND cs s (negb AND)),
-     negb (snd (seq_eval cst comp (fun c s => eval q blanks AND c s l) AND cs s (negb AND)))).
+    (fst (seq_eval cst comp (fun c s => eval q blanks AND c s l) AND cs (ensure cs s) (negb AND)),
+     negb (snd (seq_eval cst comp (fun c s => eval q blanks AND c s l) AND cs (ensure cs s) (negb AND)))).
 Proof. exact core_line_vote. Qed.
 Print Assumptions C01_line_vote.
 
@@ -55,7 +57,7 @@ Proof. exact numeric_cells_compare_as_numbers. Qed.
 Theorem C01_lt_is_le_refuted : cmp_num (mkQ true false false) Lt 10 10 = true /\ cmp_num clean Lt 10 10 = false.
 Proof. exact lt_is_le_refuted. Qed.
 Theorem C01_string_compare_refuted :
-  let s := rs0 mx (mkMx [] []) in
+  let s := rs0 mx (mkMx [] [] []) in
   beval (mkQ false true false) [] s [[57]; [49; 48]] (BCmp Gt (NHdr 0) (NHdr 1)) = true /\
   beval clean [] s [[57]; [49; 48]] (BCmp Gt (NHdr 0) (NHdr 1)) = false.
 Proof. exact string_compare_refuted. Qed.
